@@ -28,7 +28,7 @@ class Board:
         return 0x10000 | self.rsflags | K()['CHFLAG_RECALIBRATE']
     def boot_ints(self, boot32, blank, flashcfg, gpioin=0):
         a = [boot32, blank, flashcfg, len(self.inputs)]
-        for i in self.inputs: a += [i['type'], i['flags'], i['relay'], i['atcap'], i['at']]
+        for i in self.inputs: a += [i['type'], i['flags'], i['relay'], i['atcap'], i['at'], i['channel']]
         a.append(len(self.rs))
         for k, (u, d) in enumerate(self.rs):
             t1 = self.time1[k] if k < len(self.time1) else 0; t2 = self.time2[k] if k < len(self.time2) else 0
@@ -48,7 +48,7 @@ def parse_boot(a):
     def nx(): k[0] += 1; return a[k[0] - 1]
     b = Board(); boot32 = nx(); blank = nx(); flashcfg = nx(); nin = nx()
     for _ in range(nin):
-        t, f, r, cap, at = nx(), nx(), nx(), nx(), nx(); b.inputs.append(dict(gpio=255, type=t, flags=f, relay=r, channel=255, atcap=cap, at=at))
+        t, f, r, cap, at, chn = nx(), nx(), nx(), nx(), nx(), nx(); b.inputs.append(dict(gpio=255, type=t, flags=f, relay=r, channel=chn, atcap=cap, at=at))
     nrs = nx(); rsm = []
     for _ in range(nrs):
         ex, ch, fl, rf, tl, ug, dg, t1, t2 = [nx() for _ in range(9)]
@@ -88,7 +88,8 @@ def gen_board(rng, no_rs=False):
         atcap = rng.choice([0, 0, k['CAP_SHORT_PRESS_MASK'] | k['CAP_HOLD'], k['CAP_TG1'] | k['CAP_TG2'] | k['CAP_TURN_ON'] | k['CAP_TURN_OFF'], 0xFFFF])
         at = -1
         if atcap and rng.random() < 0.7: at = rng.choice([0, atcap, k['CAP_SP1'], k['CAP_SP2'] | k['CAP_HOLD'], k['CAP_TG1'], k['CAP_TURN_ON'] | k['CAP_TURN_OFF'], k['CAP_SP5']])
-        b.inputs.append(dict(gpio=pins[n], type=typ, flags=fl, relay=rel, channel=10 + n if atcap else 255, atcap=atcap, at=at))
+        # ACTIONTRIGGER channels must be < CHANNEL_MAX_COUNT (8) for a channel config to reach them; relay channels use 0..3
+        b.inputs.append(dict(gpio=pins[n], type=typ, flags=fl, relay=rel, channel=4 + n if atcap else 255, atcap=atcap, at=at))
     return b
 
 # ------------------------------------------------------------------------------------------------
@@ -133,7 +134,7 @@ class C12(F.PropCheck):
 
     def build_impl(self):
         V = F.VERIF
-        return F.build_c('c12', os.path.join(V, 'harness', 'drv', 'c12.c'), config='dev',
+        return F.build_c('c12', os.path.join(V, 'harness', 'drv', 'c12.c'), config='devcfg',
                          extra_srcs=[os.path.join(F.REPO, 'src', 'user', 'user_main.c'), os.path.join(V, 'harness', 'doubles', 'c12_extra.c')],
                          extra_flags=['-DSPI_FLASH_SIZE_MAP=2', '-DVERIF_REAL_USER_MAIN'],
                          libs=['-Wl,--wrap=system_restart', '-Wl,--wrap=supla_esp_gpio_state_cfgmode', '-Wl,--wrap=ets_delay_us'])
